@@ -8,7 +8,10 @@
       invariant [Inv], termination measure [measure] = objects left + objects per
       message, which every iteration lowers by at least one, hence the fuel bound
       2 * (pods + containers) + 1.
-   3. The receiver (stub): handler invoked once with the concatenation.
+   3. The receiver (stub): handler invoked once with the concatenation; over several
+      connections of one stub value (close in between) every invocation gets the objects
+      of its own connection only, a connection cut off gets none (sessions_isolated), and
+      the statement is false without the reset in close (sessions_no_reset_refuted).
    4. Instances: recalc; the size-based transport; the boolean form of interpretation I4.
    5. Activation bookkeeping. *)
 From Coq Require Import List ZArith Bool Lia Floats.SpecFloat.
@@ -435,7 +438,123 @@ Section Receiver.
     - cbn [stub_sync]. destruct (stub_append (ss_acc st) mp mc) as [aps acs].
       destruct (h aps acs) eqn:E; [eexists; eexists; reflexivity|]. exfalso. eapply Hh; eassumption.
   Qed.
+
+  (* ---- several connections of one stub value ---- *)
+
+  (* a split request arriving at a stub that has collected nothing, whatever it delivered before *)
+  Lemma stub_run_from_none : forall (groups : list (list A * list B)) calls lp lc,
+    peer_run stub {| ss_acc := None; ss_calls := calls |} (more_msgs groups ++ [(lp, lc, false)]) =
+    ({| ss_acc := None;
+        ss_calls := calls ++ [(concat (map fst groups) ++ lp, concat (map snd groups) ++ lc)] |},
+     map (fun _ => more_reply) groups ++
+     [final_reply h (concat (map fst groups) ++ lp) (concat (map snd groups) ++ lc)]).
+  Proof.
+    intros groups calls lp lc. destruct groups as [|[gp gc] r].
+    - cbn [more_msgs map concat app peer_run stub_sync stub_append ss_acc ss_calls]. unfold final_reply.
+      destruct (h lp lc); reflexivity.
+    - cbn [more_msgs map app peer_run stub_sync stub_append ss_acc ss_calls fst snd concat].
+      fold (more_msgs r). rewrite stub_run_acc. rewrite <- !app_assoc. reflexivity.
+  Qed.
+
+  (* messages flagged More never reach the handler *)
+  Lemma stub_more_calls : forall (groups : list (list A * list B)) st,
+    ss_calls (fst (peer_run stub st (more_msgs groups))) = ss_calls st.
+  Proof.
+    induction groups as [|[gp gc] r IH]; intros st; [reflexivity|].
+    cbn [more_msgs map peer_run stub_sync fst snd]. fold (more_msgs r).
+    match goal with |- context [peer_run stub ?s (more_msgs r)] => specialize (IH s); destruct (peer_run stub s (more_msgs r)) as [s2 rps] end.
+    cbn [fst ss_calls] in *. exact IH.
+  Qed.
+
+  (* one connection, starting with nothing collected: the handler is owed exactly
+     session_delivery, and close leaves nothing collected behind *)
+  Lemma session_step (st : stub_state A B) (s : session A B) :
+    ss_acc st = None ->
+    ss_calls (stub_session (Some h) true st (session_msgs s)) = ss_calls st ++ session_delivery s /\
+    ss_acc (stub_session (Some h) true st (session_msgs s)) = None.
+  Proof.
+    destruct st as [acc calls]. cbn [ss_acc ss_calls]. intros ->.
+    destruct s as [groups [lp lc|]]; unfold stub_session, session_msgs, session_delivery, stub_close; cbn [fst snd ss_acc ss_calls].
+    - rewrite stub_run_from_none. cbn [fst ss_calls]. split; reflexivity.
+    - rewrite app_nil_r, stub_more_calls, app_nil_r. cbn [ss_calls]. split; reflexivity.
+  Qed.
+
+  Lemma sessions_from : forall (ss : list (session A B)) (st : stub_state A B),
+    ss_acc st = None ->
+    ss_calls (stub_sessions (Some h) true st (map session_msgs ss)) = ss_calls st ++ flat_map session_delivery ss /\
+    ss_acc (stub_sessions (Some h) true st (map session_msgs ss)) = None.
+  Proof.
+    induction ss as [|s r IH]; intros st Hn.
+    - cbn [map stub_sessions fold_left flat_map]. rewrite app_nil_r. split; [reflexivity|exact Hn].
+    - unfold stub_sessions in *. cbn [map fold_left flat_map].
+      destruct (session_step st s Hn) as [Hc Ha].
+      destruct (IH _ Ha) as [Hc2 Ha2]. rewrite Hc2, Hc, <- app_assoc. split; [reflexivity|exact Ha2].
+  Qed.
+
+  (* close() of the current stub.go discards the collected chunks *)
+  Lemma close_resets : close_resets_sync = true.
+  Proof. reflexivity. Qed.
+
+  (* Over any sequence of connections of one stub value - each a split request that either
+     ends with its last message or is cut off before it - the handler invocations are, in
+     order, exactly the deliveries owed per connection: none for a connection cut off, one
+     for a completed one, with the objects of that connection only. *)
+  Theorem sessions_isolated (ss : list (session A B)) :
+    ss_calls (stub_sessions (Some h) close_resets_sync stub_init (map session_msgs ss)) = flat_map session_delivery ss /\
+    ss_acc (stub_sessions (Some h) close_resets_sync stub_init (map session_msgs ss)) = None.
+  Proof. rewrite close_resets. exact (sessions_from ss stub_init eq_refl). Qed.
+
+  Lemma flat_map_closed (failed : list (list (list A * list B))) :
+    flat_map session_delivery (map (fun g => (g, @SClosed A B)) failed) = [].
+  Proof. induction failed as [|g r IH]; [reflexivity|]. cbn [map flat_map session_delivery snd app]. exact IH. Qed.
+
+  (* any number of connections cut off after any chunks, then a completed one *)
+  Theorem failed_then_delivered (failed : list (list (list A * list B))) (groups : list (list A * list B)) lp lc :
+    ss_calls (stub_sessions (Some h) close_resets_sync stub_init
+               (map session_msgs (map (fun g => (g, SClosed)) failed ++ [(groups, SFinal lp lc)]))) =
+    [(concat (map fst groups) ++ lp, concat (map snd groups) ++ lc)].
+  Proof.
+    destruct (sessions_isolated (map (fun g => (g, SClosed)) failed ++ [(groups, SFinal lp lc)])) as [Hc _].
+    rewrite Hc, flat_map_app, flat_map_closed. reflexivity.
+  Qed.
+
+  (* the handler runs at most once per connection *)
+  Lemma delivery_at_most_once (s : session A B) : (length (session_delivery s) <= 1)%nat.
+  Proof. destruct s as [g [lp lc|]]; cbn; lia. Qed.
+
+  (* sender and receiver together, after a restart: whatever state [st] earlier connections
+     left in the stub value (in particular the chunks of a synchronisation that failed half-way),
+     after close a delivered synchronisation means exactly one more handler invocation, with
+     exactly the runtime's state *)
+  Theorem delivered_after_restart (st : stub_state A B) pods ctrs s u st' :
+    sync_good stub pods ctrs (stub_close close_resets_sync st) (Delivered s u st') ->
+    ss_calls st' = ss_calls st ++ [(pods, ctrs)] /\ ss_acc st' = None /\ h pods ctrs = Some u.
+  Proof.
+    rewrite close_resets. unfold stub_close. destruct st as [acc calls]. cbn [ss_acc ss_calls].
+    intros [Hp [Hc [Hm [rps [rp [Hr [Hl Hu]]]]]]].
+    destruct (flags_decompose s Hm) as [groups [lp [lc Es]]]. subst s.
+    destruct (chunks_of_split groups lp lc) as [Ep Ec]. rewrite Ep in Hp. rewrite Ec in Hc.
+    rewrite stub_run_from_none in Hr. rewrite Hp, Hc in Hr. inversion Hr; subst st' rps.
+    cbn [ss_calls ss_acc]. repeat split.
+    rewrite last_last in Hl. unfold final_reply in Hl. destruct (h pods ctrs) as [u'|]; [|discriminate].
+    inversion Hl; subst rp. cbn in Hu. subst. reflexivity.
+  Qed.
 End Receiver.
+
+(* without the reset in close() the statement is false: one chunk collected on a connection
+   that is then lost shows up in the delivery of the next connection *)
+Lemma sessions_no_reset_witness :
+  ss_calls (stub_sessions (Some (fun (_ _ : list Z) => Some (@nil Z))) false stub_init
+             (map session_msgs [([([1], [2])], SClosed); ([], SFinal [3] [4])])) = [([1; 3], [2; 4])].
+Proof. reflexivity. Qed.
+
+Theorem sessions_no_reset_refuted :
+  exists (h : list Z -> list Z -> option (list Z)) (ss : list (session Z Z)),
+    ss_calls (stub_sessions (Some h) false stub_init (map session_msgs ss)) <> flat_map session_delivery ss.
+Proof.
+  exists (fun _ _ => Some []), [([([1], [2])], SClosed); ([], SFinal [3] [4])].
+  rewrite sessions_no_reset_witness. cbn. discriminate.
+Qed.
 
 (* ------------------------------------------------------------------ *)
 (** * The concrete sender: recalcObjsPerSyncMsg, any honest transport *)
